@@ -8,10 +8,35 @@ pub mod rand {
         #[verifier::external_body]
         pub fn gen_range(&mut self, r: core::ops::Range<u32>) -> (x: u32) ensures r.start <= x < r.end { unimplemented!() }
     }
-    // deviation surface: other entropy sources carry no CSPRNG provenance
+    impl Default for ThreadRng {
+        #[verifier::external_body]
+        fn default() -> (r: ThreadRng) { unimplemented!() }
+    }
+    impl ThreadRng {
+        // RngCore::fill_bytes on the thread-local, OS-seeded CSPRNG (A-RNG)
+        #[verifier::external_body]
+        pub fn fill_bytes(&mut self, buf: &mut [u8])
+            ensures final(buf)@.len() == old(buf)@.len(), crate::csprng_bytes(final(buf)@)
+        { unimplemented!() }
+    }
+    // deviation surface: a seedable generator carries no CSPRNG provenance
+    pub struct StdRng { pub _p: u8 }
+    impl StdRng {
+        #[verifier::external_body]
+        pub fn seed_from_u64(s: u64) -> StdRng { unimplemented!() }
+        #[verifier::external_body]
+        pub fn from_seed(s: [u8; 32]) -> StdRng { unimplemented!() }
+        #[verifier::external_body]
+        pub fn fill_bytes(&mut self, buf: &mut [u8]) ensures final(buf)@.len() == old(buf)@.len() { unimplemented!() }
+    }
+    pub mod prelude { pub use super::ThreadRng; pub use super::StdRng; }
+    pub mod rngs { pub use super::StdRng; }
     pub trait Rng {}
+    pub trait RngCore {}
+    pub trait SeedableRng {}
 }
 use rand::Rng;
+use rand::prelude::ThreadRng;
 // generic sort: result is a sorted permutation (multiset preserved); String ordering is opaque
 pub uninterp spec fn sort_post<T>(before: Seq<T>, after: Seq<T>) -> bool;
 pub assume_specification<T: Ord> [<[T]>::sort] (v: &mut [T]) ensures sort_post(old(v)@, final(v)@);
